@@ -36,7 +36,7 @@ pub fn make_run(seed: u64, focus: Focus) -> (ops::Init, gensrc::GenSource, Strin
     let swarm = gensrc::Swarm::draw(&mut rng, focus);
     let weights: [u32; 7] = match focus {
         Focus::Faults => [20, 38, 14, 5, 13, 5, 5],
-        Focus::DeleteWalk => [15, 44, 29, 8, 1, 1, 2],
+        Focus::DeleteWalk => [15, 42, 28, 8, 4, 1, 2],
         _ => [20, 44, 19, 8, 4, 2, 3],
     };
     let mut cfg = gen::gen_packet_cfg(&mut rng, &weights);
@@ -94,6 +94,14 @@ pub fn run_lane_n(prop: &str, seed: u64, run: u64) -> RunReport {
             }
             if b.len() > 65535 - 255 {
                 exec::bump(&mut stats, "probe:packet_within_255_of_65535");
+            }
+            if d.layout.has_pointer {
+                let unc = crate::codec::encode_literal(&d.msg).len();
+                if unc > 65535 && b.len() <= 65535 {
+                    exec::bump(&mut stats, "probe:compressed_packet_that_decompresses_past_65535");
+                } else if unc > 8192 && b.len() <= 8192 {
+                    exec::bump(&mut stats, "probe:compressed_packet_that_decompresses_past_8192");
+                }
             }
         }
     }
